@@ -55,4 +55,6 @@ def cache_obs(tier, seed):
 
 def obligations(tier, seed):
     p = packet_obs()
-    return [p[k] for k in ("pagelink", "x27_links", "lop_parity", "lop_parity_x26", "header")] + list(fmt_obs().values()) + cache_obs(tier, seed)
+    from vlib.props._asm import asm_obs
+    asm = [o for o in asm_obs() if o.name == "asm_header_terminates"]     # multi-packet assembly: page termination across headers, serial / parallel mode
+    return [p[k] for k in ("pagelink", "x27_links", "lop_parity", "lop_parity_x26", "header")] + list(fmt_obs().values()) + cache_obs(tier, seed) + asm
